@@ -99,7 +99,8 @@ Record Rel (cf : cfg) (m : mst) (s : sst) : Prop := {
             end;
   L_exitnot : exited m = true -> notified m <> None;
   L_acc : s_tried s = false -> attempted m = false /\ collected m = s_acc s;
-  L_att : att_ok (notified m) (catt m) (s_att s) (s_wait0 s)
+  L_att : att_ok (notified m) (catt m) (s_att s) (s_wait0 s);
+  L_nest : s_nested s = nested m
 }.
 
 Lemma Rel_init cf : Rel cf (m0 cf) (s0 cf).
@@ -130,7 +131,7 @@ Proof. induction ws as [|w ws IH]; [reflexivity|]. cbn. exact IH. Qed.
 Definition satt (s : sst) (n : N) (w : bool) : sst :=
   {| s_conns := s_conns s; s_npend := s_npend s; s_decided := s_decided s; s_waiting := s_waiting s;
      s_exited := s_exited s; s_timer := s_timer s; s_gone := s_gone s; s_acc := s_acc s; s_tried := s_tried s;
-     s_att := n; s_wait0 := w |}.
+     s_att := n; s_wait0 := w; s_nested := s_nested s |}.
 Lemma satt_id s : satt s (s_att s) (s_wait0 s) = s.
 Proof. destruct s; reflexivity. Qed.
 Lemma satt_satt s n w n' w' : satt (satt s n w) n' w' = satt s n' w'.
@@ -275,6 +276,26 @@ Proof.
       assert (res_is (is_ok r) r = true) as -> by (destruct r; reflexivity).
       rewrite !andb_true_r. dirgoal HR.
     + unfold spec_step. cbn. rewrite Dc. cbn. rewrite W0. exact HR.
+  - split.
+    + unfold chunk_ok. cbn. rewrite Dc. cbn. rewrite !andb_true_r. dirgoal HR.
+    + unfold spec_step. cbn. rewrite Dc. cbn. destruct HR. relsolve.
+      * rewrite Nt in L_timer0. exact L_timer0.
+      * rewrite Nt in L_exitnot0. exact L_exitnot0.
+Qed.
+
+(* when_connected() with a callback that asks again from inside the delivery *)
+Lemma good_whenr cf m s w w' : Rel cf m s -> w <> 0 -> w' <> 0 -> w <> w' -> good cf m s (OWhenR w w').
+Proof.
+  intros HR W0 W0' Df. apply N.eqb_neq in W0, W0'. unfold good, op_chunk. cbn [step]. pose proof (L_dec _ _ _ HR) as Dc.
+  destruct (notified m) as [r|] eqn:Nt; cbn in Dc.
+  - assert (ND : NoDup [w; w']).
+    { constructor; [intros [H|[]]; congruence|constructor; [intros []|constructor]]. }
+    split.
+    + unfold chunk_ok. cbn [app fires flat_map signals dirs n_connecting filter length op_effect]. rewrite Dc.
+      change [(w, r); (w', r)] with (map (fun x => (x, r)) [w; w']).
+      rewrite (all_fire_self [w; w'] (is_ok r) r ND) by (destruct r; reflexivity).
+      cbn. rewrite !andb_true_r. dirgoal HR.
+    + unfold spec_step. cbn. rewrite Dc. cbn. rewrite W0, W0'. exact HR.
   - split.
     + unfold chunk_ok. cbn. rewrite Dc. cbn. rewrite !andb_true_r. dirgoal HR.
     + unfold spec_step. cbn. rewrite Dc. cbn. destruct HR. relsolve.
@@ -505,6 +526,9 @@ Proof. rewrite nconn_app. cbn. apply Nat.add_0_r. Qed.
 Lemma absorb_wrap cf s p l b : absorb cf s ((EProgress p :: l) ++ [EDir b]) = absorb cf s l.
 Proof. rewrite absorb_app. reflexivity. Qed.
 
+Lemma memN_app k a b : memN k (a ++ b) = memN k a || memN k b.
+Proof. apply existsb_app. Qed.
+
 Lemma memN_drop0 ws : memN 0 (drop0 ws) = false.
 Proof.
   unfold memN, drop0. induction ws as [|w ws IH]; [reflexivity|]. cbn [filter].
@@ -537,37 +561,37 @@ Qed.
 (* 100% on a fully bootstrapped connection while undecided: everybody is told; the launch() result
    is held back when launch() has to attach the configuration first *)
 Lemma progress_success cf m s c p t a pre hd :
-  Rel cf m s -> NoDup (waiters m) -> notified m = None ->
+  Rel cf m s -> NoDup (allw m) -> notified m = None ->
   (p =? 100) = true -> delivered s c = true -> full_bootstrap s c = true ->
   ((t = TNone /\ s_timer s = false) \/ t = TCleared) -> resumed cf m a pre hd ->
   let m1 := {| attempted := attempted m; collected := collected m; npend := npend m; conns := conns m; timer := t;
                notified := Some ROk; waiters := []; did_timeout := did_timeout m; exited := exited m; gone := gone m;
-               catt := a |} in
-  let es := (EProgress p :: pre ++ map (fun w => EFired w ROk) (if hd then drop0 (waiters m) else waiters m))
+               catt := a; nested := [] |} in
+  let es := (EProgress p :: pre ++ map (fun w => EFired w ROk) (if hd then drop0 (allw m) else allw m))
             ++ [EDir (negb (gone m))] in
   chunk_ok cf s (OProgress c p) es = true /\ Rel cf m1 (spec_step cf s (OProgress c p) es).
 Proof.
   intros HR ND Nt P100 Dl Fb Ht Hc m1 es.
   pose proof (L_dec _ _ _ HR) as Dc. rewrite Nt in Dc. cbn in Dc.
-  pose proof (L_wait _ _ _ HR) as Wt. pose proof (L_att _ _ _ HR) as At. pose proof (Rel_nowait _ _ _ HR Nt) as W0.
+  pose proof (L_wait _ _ _ HR) as Wt. pose proof (L_nest _ _ _ HR) as Nn. pose proof (L_att _ _ _ HR) as At. pose proof (Rel_nowait _ _ _ HR Nt) as W0.
   assert (Eff : op_effect cf s (OProgress c p) =
                 {| s_conns := s_conns s; s_npend := s_npend s; s_decided := Some true; s_waiting := [];
                    s_exited := s_exited s; s_timer := s_timer s; s_gone := s_gone s; s_acc := s_acc s;
-                   s_tried := s_tried s; s_att := s_att s; s_wait0 := memN 0 (waiters m) |}).
+                   s_tried := s_tried s; s_att := s_att s; s_wait0 := memN 0 (waiters m); s_nested := [] |}).
   { cbn [op_effect]. rewrite P100, Fb. cbn [andb]. unfold decide_ok. rewrite Dc, Wt. reflexivity. }
   (* the three parts of the verdict that do not depend on who fires *)
-  assert (Pre : forall fs, (all_fire (waiters m) true fs
+  assert (Pre : forall fs, (all_fire (allw m) true fs
                             || (negb (s_att (absorb cf (op_effect cf s (OProgress c p)) es) =? 0)
-                                && all_fire (drop0 (waiters m)) true fs)) = true ->
+                                && all_fire (drop0 (allw m)) true fs)) = true ->
                 fires es = fs -> signals es = [] -> dirs es = [negb (gone m)] -> n_connecting es = O ->
                 chunk_ok cf s (OProgress c p) es = true).
-  { intros fs Hf E1 E2 E3 E4. unfold chunk_ok. rewrite E1, E2, E3, E4, P100, Dl, Dc, Fb, Wt, Hf.
+  { intros fs Hf E1 E2 E3 E4. unfold chunk_ok. rewrite E1, E2, E3, E4, P100, Dl, Dc, Fb, Wt, Nn. fold (allw m). rewrite Hf.
     rewrite Eff. cbn. rewrite !andb_true_r. dirgoal HR. }
   destruct Hc as [(-> & -> & ->)|(Ca & M0 & c' & -> & [(A0 & -> & ->)|(A0 & -> & ->)])].
   - (* launch() returns at once *)
     split.
-    + apply (Pre (map (fun w => (w, ROk)) (waiters m))).
-      * rewrite (all_fire_self (waiters m) true ROk ND eq_refl). reflexivity.
+    + apply (Pre (map (fun w => (w, ROk)) (allw m))).
+      * rewrite (all_fire_self (allw m) true ROk ND eq_refl). reflexivity.
       * unfold es. rewrite fires_wrap. cbn [app]. apply fires_fired.
       * unfold es. rewrite signals_wrap. cbn [app]. apply signals_fired.
       * unfold es. rewrite dirs_wrap. cbn [app]. rewrite dirs_fired. reflexivity.
@@ -577,12 +601,13 @@ Proof.
       assert (A' : att_ok (Some ROk) (catt m) (s_att s) false).
       { unfold att_ok in *. destruct (catt m) as [|n who|]; try (split; [apply At|reflexivity]).
         destruct At as (A1 & A2 & A3 & A4). repeat split; auto. congruence. }
-      destruct (memN 0 (waiters m)); destruct HR; constructor; cbn; auto; try discriminate;
+      unfold allw. rewrite memN_app.
+      destruct (memN 0 (waiters m)); destruct (memN 0 (nested m)); cbn [orb]; destruct HR; constructor; cbn; auto; try discriminate;
         destruct Ht as [[-> Hs]| ->]; try exact Hs; try discriminate.
   - (* launch() attaches the configuration, which needs no round trip *)
     split.
-    + apply (Pre (map (fun w => (w, ROk)) (waiters m))).
-      * rewrite (all_fire_self (waiters m) true ROk ND eq_refl). reflexivity.
+    + apply (Pre (map (fun w => (w, ROk)) (allw m))).
+      * rewrite (all_fire_self (allw m) true ROk ND eq_refl). reflexivity.
       * unfold es. rewrite fires_wrap, fires_app. cbn [fires flat_map app]. apply fires_fired.
       * unfold es. rewrite signals_wrap, signals_app. cbn [signals flat_map app]. apply signals_fired.
       * unfold es. rewrite dirs_wrap, dirs_app. cbn [dirs flat_map app]. rewrite dirs_fired. reflexivity.
@@ -590,7 +615,8 @@ Proof.
     + unfold spec_step, es. rewrite Eff, absorb_wrap, absorb_app. cbn [absorb fold_left].
       rewrite absorb1_attach. fold (absorb cf). rewrite absorb_fired_all. apply N.eqb_eq in A0. rewrite A0.
       cbn [s_att s_wait0 satt]. unfold m1.
-      destruct (memN 0 (waiters m)); destruct HR; constructor; cbn; auto; try discriminate;
+      unfold allw. rewrite memN_app.
+      destruct (memN 0 (waiters m)); destruct (memN 0 (nested m)); cbn [orb]; destruct HR; constructor; cbn; auto; try discriminate;
         destruct Ht as [[-> Hs]| ->]; try exact Hs; try discriminate.
   - (* launch() attaches the configuration and waits for it: its result is held back *)
     assert (Ab : absorb cf (op_effect cf s (OProgress c p)) es
@@ -598,9 +624,9 @@ Proof.
     { unfold es. rewrite Eff, absorb_wrap, absorb_app. cbn [absorb fold_left].
       rewrite absorb1_attach. fold (absorb cf). rewrite absorb_fired_all, memN_drop0. rewrite M0. reflexivity. }
     split.
-    + apply (Pre (map (fun w => (w, ROk)) (drop0 (waiters m)))).
+    + apply (Pre (map (fun w => (w, ROk)) (drop0 (allw m)))).
       * rewrite Ab. cbn [s_att satt]. rewrite A0. cbn [negb andb].
-        rewrite (all_fire_self (drop0 (waiters m)) true ROk (NoDup_filter _ ND) eq_refl). apply orb_true_r.
+        rewrite (all_fire_self (drop0 (allw m)) true ROk (NoDup_filter _ ND) eq_refl). apply orb_true_r.
       * unfold es. rewrite fires_wrap, fires_app. cbn [fires flat_map app]. apply fires_fired.
       * unfold es. rewrite signals_wrap, signals_app. cbn [signals flat_map app]. apply signals_fired.
       * unfold es. rewrite dirs_wrap, dirs_app. cbn [dirs flat_map app]. rewrite dirs_fired. reflexivity.
@@ -610,7 +636,7 @@ Proof.
         destruct Ht as [[-> Hs]| ->]; try exact Hs; try discriminate.
 Qed.
 
-Lemma good_progress cf m s c p : Rel cf m s -> NoDup (waiters m) -> good cf m s (OProgress c p).
+Lemma good_progress cf m s c p : Rel cf m s -> NoDup (allw m) -> good cf m s (OProgress c p).
 Proof.
   intros HR ND. unfold good, op_chunk. cbn [step]. pose proof (conn_both cf m s c HR) as CB.
   pose proof (L_gone _ _ _ HR) as Hg. pose proof (L_dec _ _ _ HR) as Dc. pose proof (L_wait _ _ _ HR) as Wt.
@@ -664,7 +690,7 @@ Proof.
     + congruence.
 Qed.
 
-Lemma good_timeout cf m s : Rel cf m s -> NoDup (waiters m) -> good cf m s OTimeout.
+Lemma good_timeout cf m s : Rel cf m s -> NoDup (allw m) -> good cf m s OTimeout.
 Proof.
   intros HR ND. unfold good, op_chunk. cbn [step].
   pose proof (L_gone _ _ _ HR) as Hg. pose proof (L_dec _ _ _ HR) as Dc. pose proof (L_wait _ _ _ HR) as Wt.
@@ -688,11 +714,11 @@ Proof.
         -- rewrite Nt in L_att0. exact L_att0.
     + (* undecided: TERM and failure *)
       assert (Ea : exited m = false) by (destruct (exited m); [exfalso; apply Ex; reflexivity|reflexivity]).
-      rewrite Ea. unfold notify. cbn [notified waiters]. rewrite ?Nt. cbv beta iota. split.
+      rewrite Ea. unfold notify, allw. cbn [notified waiters nested]. rewrite ?Nt. cbv beta iota. fold (allw m). split.
       * unfold chunk_ok. rewrite !fires_app, !signals_app, !dirs_app, !nconn_app, fires_fired, signals_fired, dirs_fired, nconn_fired.
         cbn [fires signals dirs flat_map app n_connecting filter length Nat.add op_effect].
-        rewrite Tm, Dc, Wt. unfold decide. rewrite Dc. cbn [s_gone gone]. rewrite app_nil_r.
-        rewrite (all_fire_self (waiters m) false (RFail 1) ND eq_refl). rewrite C_term.
+        rewrite Tm, Dc, Wt, (L_nest _ _ _ HR). fold (allw m). unfold decide. rewrite Dc. cbn [s_gone gone]. rewrite app_nil_r.
+        rewrite (all_fire_self (allw m) false (RFail 1) ND eq_refl). rewrite C_term.
         cbn. rewrite !andb_true_r. dirgoal HR.
       * unfold spec_step. cbn [op_effect]. rewrite Tm. unfold decide. rewrite Dc.
         rewrite !absorb_app, absorb_fired by (cbn; apply (Rel_nowait _ _ _ HR Nt)). cbn.
@@ -716,7 +742,7 @@ Proof.
       * unfold spec_step. cbn. rewrite St. cbn. exact HR.
 Qed.
 
-Lemma good_exit cf m s x : Rel cf m s -> NoDup (waiters m) -> good cf m s (OExit x).
+Lemma good_exit cf m s x : Rel cf m s -> NoDup (allw m) -> good cf m s (OExit x).
 Proof.
   intros HR ND. unfold good, op_chunk. cbn [step].
   pose proof (L_gone _ _ _ HR) as Hg. pose proof (L_dec _ _ _ HR) as Dc. pose proof (L_wait _ _ _ HR) as Wt.
@@ -732,11 +758,11 @@ Proof.
         try (rewrite L_gone0; destruct (s_gone s), (c_userdir cf); reflexivity);
         try (rewrite Nt in L_att0; exact L_att0);
         try (destruct (timer m); auto).
-  - unfold notify. cbn [notified waiters]. rewrite ?Nt. cbv beta iota. split.
+  - unfold notify, allw. cbn [notified waiters nested]. rewrite ?Nt. cbv beta iota. fold (allw m). split.
     + unfold chunk_ok. rewrite !fires_app, !signals_app, !dirs_app, !nconn_app, fires_fired, signals_fired, dirs_fired, nconn_fired.
       cbn [fires signals dirs flat_map app n_connecting filter length Nat.add op_effect].
-      rewrite Dc, Wt. unfold decide. rewrite Dc. cbn [s_gone gone].
-      rewrite ?app_nil_r. rewrite (all_fire_self (waiters m) false (RFail kd) ND eq_refl).
+      rewrite Dc, Wt, (L_nest _ _ _ HR). fold (allw m). unfold decide. rewrite Dc. cbn [s_gone gone].
+      rewrite ?app_nil_r. rewrite (all_fire_self (allw m) false (RFail kd) ND eq_refl).
       cbn. rewrite !andb_true_r. eapply Gd. exact Hg.
     + unfold spec_step. cbn [op_effect]. unfold decide. rewrite Dc.
       rewrite !absorb_app, absorb_fired by (cbn; apply (Rel_nowait _ _ _ HR Nt)). cbn.
@@ -828,9 +854,14 @@ Qed.
 (* ------------------------------------------------------------------------------------------ *)
 (* Part C *)
 
-Lemma step_good cf m s o : Rel cf m s -> NoDup (waiters m) -> (forall w, o = OWhen w -> w <> 0) -> good cf m s o.
+(* the waiter numbers a request brings in *)
+Definition newids (o : op) : list N :=
+  match o with OWhen w => [w] | OWhenR w w' => [w; w'] | _ => [] end.
+
+Lemma step_good cf m s o : Rel cf m s -> NoDup (allw m) ->
+  NoDup (newids o) -> (forall w, In w (newids o) -> w <> 0) -> good cf m s o.
 Proof.
-  intros HR ND W0. destruct o.
+  intros HR ND NI W0. destruct o.
   - apply good_out; assumption.
   - apply good_err; assumption.
   - apply good_connok; assumption.
@@ -842,20 +873,22 @@ Proof.
   - apply good_status; assumption.
   - apply good_timeout; assumption.
   - apply good_exit; assumption.
-  - apply good_when; [assumption|]. apply W0. reflexivity.
+  - apply good_when; [assumption|]. apply W0. left. reflexivity.
+  - apply good_whenr; [assumption|apply W0; cbn; auto|apply W0; cbn; auto|].
+    cbn in NI. inversion NI as [|? ? H _]; subst. intros ->. apply H. left. reflexivity.
   - apply good_shutdown; assumption.
 Qed.
 
 (* who is still to be told: the when_connected() Deferreds, and the launch() result while launch() waits
    for the configuration *)
 Definition held0 (m : mst) : bool := match catt m with ARun _ None => true | _ => false end.
-Definition live (m : mst) : list N := waiters m ++ (if held0 m then [0] else []).
+Definition live (m : mst) : list N := allw m ++ (if held0 m then [0] else []).
 
 (* one step: those told now and those still to be told are distinct, and were to be told before (or
    are the caller that has just asked) *)
 Definition ids_ok (m m' : mst) (o : op) (es : list obs) : Prop :=
   NoDup (map fst (fires es) ++ live m') /\
-  forall x, In x (map fst (fires es) ++ live m') -> In x (live m) \/ o = OWhen x.
+  forall x, In x (map fst (fires es) ++ live m') -> In x (live m) \/ In x (newids o).
 
 Lemma same_ids m m' o es : NoDup (live m) -> fires es = [] -> live m' = live m -> ids_ok m m' o es.
 Proof. intros ND E1 E2. unfold ids_ok. rewrite E1, E2. split; cbn; auto. Qed.
@@ -915,23 +948,23 @@ Proof.
     cbn [fires flat_map app]; rewrite fires_fired, fst_fired.
   - change (live _) with (if held0 m then [0] else []) at 1 2. fold (live m). auto.
   - change (live _) with (@nil N ++ []) at 1 2. cbn [app]. rewrite app_nil_r.
-    assert (E : live m = waiters m) by (unfold live, held0; rewrite Ca; apply app_nil_r).
+    assert (E : live m = allw m) by (unfold live, held0; rewrite Ca; apply app_nil_r).
     rewrite E in *. auto.
   - change (live _) with (@nil N ++ [0]) at 1 2. cbn [app].
-    assert (E : live m = waiters m) by (unfold live, held0; rewrite Ca; apply app_nil_r).
+    assert (E : live m = allw m) by (unfold live, held0; rewrite Ca; apply app_nil_r).
     rewrite E in *. split.
-    + replace (drop0 (waiters m) ++ [0]) with (drop0 (waiters m) ++ 0 :: []) by reflexivity.
+    + replace (drop0 (allw m) ++ [0]) with (drop0 (allw m) ++ 0 :: []) by reflexivity.
       apply NoDup_insert; rewrite app_nil_r; [apply NoDup_filter; exact ND|].
       intros H. apply In_drop0 in H as [_ H]. apply H. reflexivity.
     + intros x Hx. left. apply in_app_iff in Hx as [Hx|[<-|[]]].
       * apply In_drop0 in Hx. apply Hx.
-      * apply memN_In. exact M0.
+      * unfold allw. apply in_app_iff. left. apply memN_In. exact M0.
 Qed.
 
-Lemma step_ids cf m o : NoDup (live m) -> (forall w, o = OWhen w -> ~ In w (live m)) ->
+Lemma step_ids cf m o : NoDup (live m) -> NoDup (newids o) -> (forall w, In w (newids o) -> ~ In w (live m)) ->
   let '(m', es) := step cf m o in ids_ok m m' o es.
 Proof.
-  intros ND Fresh.
+  intros ND NI Fresh.
   assert (Same : forall m' es, fires es = [] -> live m' = live m -> ids_ok m m' o es).
   { intros. apply same_ids; auto. }
   destruct o; cbn [step].
@@ -953,14 +986,14 @@ Proof.
     destruct (ok && negb (n =? 1)).
     { apply Same; [reflexivity|]. unfold live, held0. cbn. rewrite Ca. reflexivity. }
     destruct who as [c|].
-    + assert (L : forall m1, waiters m1 = waiters m -> live (set_catt m1 ADone) = live m).
-      { intros m1 E. unfold live, held0. cbn. rewrite Ca, E. reflexivity. }
+    + assert (L : forall m1, allw m1 = allw m -> live (set_catt m1 ADone) = live m).
+      { intros m1 E. unfold live, held0. change (allw (set_catt m1 ADone)) with (allw m1). cbn [catt set_catt]. rewrite Ca, E. reflexivity. }
       destruct (getc m c) as [k|]; [|apply Same; [reflexivity|apply L; reflexivity]].
       destruct (k_stage k); try (apply Same; [reflexivity|apply L; reflexivity]).
       destruct ok; apply Same; try reflexivity; apply L; reflexivity.
     + unfold ids_ok. cbn [fires flat_map app map fst].
-      change (live (set_catt m ADone)) with (waiters m ++ []). rewrite app_nil_r.
-      assert (E : live m = waiters m ++ [0]) by (unfold live, held0; rewrite Ca; reflexivity).
+      change (live (set_catt m ADone)) with (allw m ++ []). rewrite app_nil_r.
+      assert (E : live m = allw m ++ [0]) by (unfold live, held0; rewrite Ca; reflexivity).
       rewrite E in *. split.
       * apply NoDup_remove in ND. rewrite app_nil_r in ND. constructor; apply ND.
       * intros x [<-|Hx]; left; apply in_app_iff; [right; left; reflexivity|left; exact Hx].
@@ -985,55 +1018,83 @@ Proof.
       pose proof (notify_ids m1 r m2 e2 (OExit x) [] Nf ND) as NS end.
     apply NS. reflexivity.
   - (* OWhen *)
-    pose proof (Fresh w eq_refl) as Fw.
+    assert (Fw : ~ In w (live m)) by (apply Fresh; left; reflexivity).
     destruct (notified m) as [r|].
-    + unfold ids_ok. cbn [fires flat_map app map fst]. split.
+    + unfold ids_ok. cbn [fires flat_map app map fst newids]. split.
       * constructor; assumption.
-      * intros x [<-|Hx]; auto.
+      * intros x [<-|Hx]; auto. right. left. reflexivity.
     + match goal with |- ids_ok _ ?m' _ _ =>
-        assert (E : live m' = (waiters m ++ [w]) ++ (if held0 m then [0] else [])) by reflexivity;
+        assert (E : live m' = ((waiters m ++ [w]) ++ nested m) ++ (if held0 m then [0] else [])) by reflexivity;
         unfold ids_ok; rewrite E end.
-      cbn [fires flat_map app map fst]. rewrite <- app_assoc. cbn [app]. split.
+      cbn [fires flat_map app map fst newids]. rewrite <- !app_assoc. cbn [app]. unfold live, allw in *.
+      rewrite <- app_assoc in *. split.
       * apply NoDup_insert; assumption.
-      * intros x Hx. apply in_app_iff in Hx as [Hx|[<-|Hx]]; [left; apply in_app_iff; auto|right; reflexivity|left; apply in_app_iff; auto].
+      * intros x Hx. apply in_app_iff in Hx as [Hx|[<-|Hx]]; [left; apply in_app_iff; auto|right; left; reflexivity|left; apply in_app_iff; auto].
+  - (* OWhenR *)
+    assert (Fw : ~ In w (live m)) by (apply Fresh; left; reflexivity).
+    assert (Fw' : ~ In w' (live m)) by (apply Fresh; right; left; reflexivity).
+    assert (Df : w <> w') by (cbn in NI; inversion NI as [|? ? H _]; subst; intros ->; apply H; left; reflexivity).
+    destruct (notified m) as [r|].
+    + unfold ids_ok. cbn [fires flat_map app map fst newids]. split.
+      * constructor; [intros [H|H]; [congruence|contradiction]|]. constructor; assumption.
+      * intros x [<-|[<-|Hx]]; auto; right; cbn; auto.
+    + match goal with |- ids_ok _ ?m' _ _ =>
+        assert (E : live m' = ((waiters m ++ [w]) ++ (nested m ++ [w'])) ++ (if held0 m then [0] else [])) by reflexivity;
+        unfold ids_ok; rewrite E end.
+      cbn [fires flat_map app map fst newids]. rewrite <- !app_assoc. cbn [app]. unfold live, allw in *.
+      rewrite <- app_assoc in *. split.
+      * apply NoDup_insert.
+        -- rewrite app_assoc. apply NoDup_insert; rewrite <- app_assoc; assumption.
+        -- intros H. apply in_app_iff in H as [H|H]; [apply Fw; apply in_app_iff; auto|].
+           apply in_app_iff in H as [H|[H|H]]; [apply Fw; apply in_app_iff; right; apply in_app_iff; auto|congruence|
+             apply Fw; apply in_app_iff; right; apply in_app_iff; auto].
+      * intros x Hx. rewrite !in_app_iff in *. cbn [In] in *. rewrite !in_app_iff in *. cbn [In] in *. tauto.
   - apply Same; reflexivity.
 Qed.
 
 Definition winv (m : mst) (ws : list N) : Prop :=
   NoDup (live m) /\ (forall w, In w (live m) -> In w ws) /\ In 0 ws.
 
-Definition ws_after (o : op) (ws : list N) : list N := match o with OWhen w => w :: ws | _ => ws end.
+Definition ws_after (o : op) (ws : list N) : list N :=
+  match o with OWhen w => w :: ws | OWhenR w w' => w' :: w :: ws | _ => ws end.
 
 Lemma wf_cons ex ws o h : wf_from ex ws (o :: h) = true ->
-  (exists ex', wf_from ex' (ws_after o ws) h = true) /\ (forall w, o = OWhen w -> ~ In w ws).
+  (exists ex', wf_from ex' (ws_after o ws) h = true) /\ NoDup (newids o) /\ (forall w, In w (newids o) -> ~ In w ws).
 Proof.
-  destruct o; cbn [wf_from ws_after]; intros H;
-    try (apply andb_true_iff in H as [H1 H2]); (split; [eauto|]); try (intros ? E; discriminate E).
-  intros w' E. injection E as <-. intros A. apply memN_In in A. rewrite A in H1. discriminate.
+  destruct o; cbn [wf_from ws_after newids]; intros H;
+    try (apply andb_true_iff in H as [H1 H2]); (split; [eauto|]); try (split; [constructor|intros ? []]; fail).
+  - split; [constructor; [intros []|constructor]|]. intros w' [<-|[]] A. apply memN_In in A. rewrite A in H1. discriminate.
+  - apply andb_true_iff in H1 as [H1 H3]. apply andb_true_iff in H1 as [H0 H1].
+    apply negb_true_iff in H0, H1, H3. apply N.eqb_neq in H3. split.
+    + constructor; [intros [E|[]]; congruence|constructor; [intros []|constructor]].
+    + intros x [<-|[<-|[]]] A; apply memN_In in A; congruence.
 Qed.
 
 Lemma ws_mono o ws w : In w ws -> In w (ws_after o ws).
 Proof. destruct o; cbn; auto. Qed.
 
-Lemma winv_waiters m ws : winv m ws -> NoDup (waiters m).
+Lemma ws_new o ws w : In w (newids o) -> In w (ws_after o ws).
+Proof. destruct o; cbn; intuition. Qed.
+
+Lemma winv_waiters m ws : winv m ws -> NoDup (allw m).
 Proof. intros [ND _]. unfold live in ND. apply NoDup_app_inv in ND. apply ND. Qed.
 
-Lemma winv_fresh m ws o : winv m ws -> (forall w, o = OWhen w -> ~ In w ws) ->
-  (forall w, o = OWhen w -> ~ In w (live m)) /\ (forall w, o = OWhen w -> w <> 0).
+Lemma winv_fresh m ws o : winv m ws -> (forall w, In w (newids o) -> ~ In w ws) ->
+  (forall w, In w (newids o) -> ~ In w (live m)) /\ (forall w, In w (newids o) -> w <> 0).
 Proof.
   intros (ND & Sub & Z) Fresh. split.
   - intros w E H. apply (Fresh w E). auto.
   - intros w E ->. apply (Fresh 0 E). exact Z.
 Qed.
 
-Lemma winv_step cf m o ws : winv m ws -> (forall w, o = OWhen w -> ~ In w ws) ->
+Lemma winv_step cf m o ws : winv m ws -> NoDup (newids o) -> (forall w, In w (newids o) -> ~ In w ws) ->
   winv (fst (step cf m o)) (ws_after o ws).
 Proof.
-  intros WI Fresh. destruct (winv_fresh m ws o WI Fresh) as [Fl _]. destruct WI as (ND & Sub & Z).
-  pose proof (step_ids cf m o ND Fl) as Sh. destruct (step cf m o) as [m' es]. cbn [fst].
+  intros WI NI Fresh. destruct (winv_fresh m ws o WI Fresh) as [Fl _]. destruct WI as (ND & Sub & Z).
+  pose proof (step_ids cf m o ND NI Fl) as Sh. destruct (step cf m o) as [m' es]. cbn [fst].
   destruct Sh as [ND' In']. repeat split.
   - apply NoDup_app_inv in ND'. apply ND'.
-  - intros x Hx. destruct (In' x) as [H| ->]; [apply in_app_iff; auto|apply ws_mono; auto|left; reflexivity].
+  - intros x Hx. destruct (In' x) as [H|H]; [apply in_app_iff; auto|apply ws_mono; auto|apply ws_new; exact H].
   - apply ws_mono. exact Z.
 Qed.
 
@@ -1043,9 +1104,9 @@ Lemma run_good cf h : forall m s ws ex,
 Proof.
   induction h as [|o h IH]; intros m s ws ex HR WI WF; [reflexivity|].
   cbn [run_from oracle_from].
-  destruct (wf_cons _ _ _ _ WF) as [(ex' & WF') Fresh].
-  pose proof (step_good cf m s o HR (winv_waiters _ _ WI) (proj2 (winv_fresh m ws o WI Fresh))) as G. unfold good in G.
-  pose proof (winv_step cf m o ws WI Fresh) as WS.
+  destruct (wf_cons _ _ _ _ WF) as [(ex' & WF') [NI Fresh]].
+  pose proof (step_good cf m s o HR (winv_waiters _ _ WI) NI (proj2 (winv_fresh m ws o WI Fresh))) as G. unfold good in G.
+  pose proof (winv_step cf m o ws WI NI Fresh) as WS.
   unfold op_chunk in *. destruct (step cf m o) as [m' es]. cbn [fst] in WS. destruct G as [Ck HR'].
   rewrite Ck. cbn [andb]. eapply IH; eauto.
 Qed.
@@ -1059,24 +1120,23 @@ Proof.
   induction h as [|o h IH]; intros m ws ex WI WF; cbn zeta.
   - cbn. split; [constructor|intros ? []].
   - cbn [run_from].
-    destruct (wf_cons _ _ _ _ WF) as [(ex' & WF') Fresh].
+    destruct (wf_cons _ _ _ _ WF) as [(ex' & WF') [NI Fresh]].
     destruct (winv_fresh m ws o WI Fresh) as [Fl _].
-    pose proof (winv_step cf m o ws WI Fresh) as WS.
-    pose proof (step_ids cf m o (proj1 WI) Fl) as Sh.
+    pose proof (winv_step cf m o ws WI NI Fresh) as WS.
+    pose proof (step_ids cf m o (proj1 WI) NI Fl) as Sh.
     unfold op_chunk. destruct (step cf m o) as [m' es]. cbn [fst] in WS.
     destruct (IH m' (ws_after o ws) ex' WS WF') as [NDr Elr].
     cbn [concat]. rewrite !fires_app, !map_app. cbn [fires flat_map app map]. rewrite app_nil_r.
     set (ids' := map fst (fires (concat (run_from cf m' h)))) in *.
     destruct WI as (ND & Sub & Z). destruct Sh as [ND' In'].
-    assert (Old : forall x, In x (map fst (fires es)) -> In x (live m) \/ (o = OWhen x /\ ~ In x ws)).
+    assert (Old : forall x, In x (map fst (fires es)) -> In x (live m) \/ (In x (newids o) /\ ~ In x ws)).
     { intros x Hx. destruct (In' x) as [H|H]; [apply in_app_iff; auto|auto|]. right. split; [exact H|]. apply Fresh. exact H. }
     split.
     + destruct (NoDup_app_inv _ _ ND') as (Nf & _ & Dj).
       apply NoDup_app_disj; [exact Nf|exact NDr|].
       intros x Hx Hx'. destruct (Elr x Hx') as [A|A].
-      * (* told now and still to be told afterwards *)
-        exact (Dj x Hx A).
-      * apply A. destruct (Old x Hx) as [H|[-> _]]; [apply ws_mono; auto|left; reflexivity].
+      * exact (Dj x Hx A).
+      * apply A. destruct (Old x Hx) as [H|[H _]]; [apply ws_mono; auto|apply ws_new; exact H].
     + intros w Hw. apply in_app_iff in Hw as [Hw|Hw].
       * destruct (Old w Hw) as [H|[_ H]]; auto.
       * destruct (Elr w Hw) as [A|A].
